@@ -68,7 +68,10 @@ for fn in sorted(d):
     e = d[fn]
     t, meth = typeof(fn)
     if fn == '(dhcpv4.Options).Marshal':
-        continue  # judged by dedicated clauses (C01-K3, C07), not by E2
+        # the option list encoder: frozen as extracted (its clauses C01-K3/K4, C07 are judged by dedicated rules)
+        out[fn] = {'dir': e['dir'], 'rfc': 'RFC 2132 §2; RFC 3396 (instances of at most 255 bytes); zero-length options kept',
+                   'rfc_skeleton': '{ code1 len1 value }* per key, split at 255', 'skeleton': e['skeleton'], 'schema': e['schema']}
+        continue
     key = t
     if fn == '(*dhcpv4.DHCPv4).ToBytes': key = 'dhcpv4.DHCPv4/enc'
     if key not in RFC:
